@@ -891,6 +891,22 @@ func evaluate(c CaseD) (res result) {
 		if r.tee == 0x81 && !pol.TDX {
 			v("TDX quote accepted without a TDX policy")
 		}
+		if r.tee == 0x81 && pol.TDX {
+			// independent of the model: some allowed entry must match on EVERY field it sets; an empty list admits the zero signer only
+			pad := func(h string) []byte { var x [48]byte; b, _ := hex.DecodeString(h); copy(x[:], b); return x[:] }
+			seam, signer := r.body[16:64], r.body[64:112]
+			admitted := len(pol.Mods) == 0 && bytes.Equal(signer, make([]byte, 48))
+			for _, mp := range pol.Mods {
+				match := bytes.Equal(pad(mp.MrSigner), signer)
+				if mp.MrSeam != nil {
+					match = match && bytes.Equal(pad(*mp.MrSeam), seam)
+				}
+				admitted = admitted || match
+			}
+			if !admitted {
+				v("TDX quote accepted although no allowed TDX module entry matches on every field it sets (MRSEAM %x, MRSIGNERSEAM %x)", seam, signer)
+			}
+		}
 		if !tif.ok || !qif.ok || tif.issue == nil || qif.issue == nil {
 			v("accepted although the collateral does not parse")
 		} else {
@@ -1523,9 +1539,14 @@ func genPolicies(v vector, rng *prng.R) []CaseD {
 	if r.ok && r.tee == 0x81 {
 		seam, signer := hex.EncodeToString(r.body[16:64]), hex.EncodeToString(r.body[64:112])
 		wrong := strings.Repeat("01", 48)
+		wrong2 := strings.Repeat("02", 48)
 		mods := map[string][]ModD{
 			"match-any-seam": {{nil, signer}}, "match-seam": {{&seam, signer}}, "wrong-signer": {{nil, wrong}}, "wrong-seam": {{&wrong, signer}},
 			"wrong-then-right": {{nil, wrong}, {&seam, signer}}, "seam-right-signer-wrong": {{&seam, wrong}},
+			"seam-wrong-signer-wrong": {{&wrong, wrong}}, "right-then-wrong": {{&seam, signer}, {&wrong, wrong}},
+			"two-half-matches": {{&wrong, signer}, {&seam, wrong}}, "three-wrong-seams": {{&wrong, signer}, {&wrong2, signer}, {&wrong, wrong}},
+			"wrong-wrong-right": {{&wrong, signer}, {nil, wrong}, {&seam, signer}}, "duplicate-right": {{&seam, signer}, {&seam, signer}},
+			"signer-only-right-after-pinned-wrong": {{&wrong, signer}, {nil, signer}}, "seam-is-signer-value": {{&signer, signer}},
 		}
 		for _, n := range coqout.SortedKeys(mods) {
 			add("tdx-mods:"+n, func(p *PolicyD, c *CaseD) { p.TDX, p.Mods = true, mods[n] })
